@@ -68,7 +68,7 @@ Definition judge_unchunk (m : md) (r : result bytes) : verdict :=
   end.
 
 Definition sval_eqb (a b : sval) : bool :=
-  match a, b with VNum x, VNum y => (x =? y)%Z | VBytes x, VBytes y => bytes_eqb x y | _, _ => false end.
+  match a, b with SVNum x, SVNum y => (x =? y)%Z | SVBytes x, SVBytes y => bytes_eqb x y | _, _ => false end.
 (* Deserialize then Serialize: canonical text comes back unchanged; text outside the form is an error *)
 Definition judge_sfd (t : sform) (j : json) (r1 : result sval) (r2 : option (result json)) : verdict :=
   match sf_de_gen false t j with
